@@ -56,6 +56,28 @@ def main(tier):
                 n_ok += 1
                 if len(samples) < 3 and rec["it"] > 1:
                     samples.append({"x0": rec["x0"], "tol": rec["tol8"] / 8, "cap": rec["cap"], "iterations": rec["it"], "report": rec["report"], "observed_final": rr["result"]["final"]})
+        # ---- the same optimiser object used for a second run() -------------------------------------------
+        bykey = {}
+        for rec in recs:
+            bykey.setdefault((rec["tol8"], rec["cap"], len(rec["x0"])), []).append(rec)
+        pairs = []
+        for k, lst in sorted(bykey.items()):
+            lst = sorted(lst, key=lambda x: -x["it"])
+            if len(lst) >= 2:
+                pairs.append([lst[0], lst[-1]])
+                pairs.append([lst[-1], lst[0]])
+                pairs.append([lst[len(lst) // 2], lst[0]])
+        pres = common.run_forked(pairs, opt_driver.run_exact_pair, timeout=300)
+        n_pairs_ok = 0
+        for pair, rr in zip(pairs, pres):
+            if not rr.get("ok"):
+                rep.violation("second_run_on_same_optimiser_failed", {"first": {k: pair[0][k] for k in ("x0", "tol8", "cap")}, "second": {k: pair[1][k] for k in ("x0", "tol8", "cap")}, "error": rr.get("error")}, cap=pair[1]["cap"], tol8=pair[1]["tol8"], ambiguous=False)
+                continue
+            bad = opt_driver.compare_exact(pair[1], rr["result"][1])
+            if bad:
+                rep.violation("second_run_depends_on_first", {"first": {k: pair[0][k] for k in ("x0", "tol8", "cap", "it")}, "second": {k: pair[1][k] for k in ("x0", "tol8", "cap", "it")}, "mismatch": bad[:3]}, what=bad[0]["what"], cap=pair[1]["cap"], tol8=pair[1]["tol8"], ambiguous=pair[1]["ambiguous"])
+            else:
+                n_pairs_ok += 1
         # ---- real PES ----------------------------------------------------------------------------
         alphas = [1e-3, 5e-3] if tier == "quick" else [1e-4, 1e-3, 5e-3, 2e-2]
         real = []
@@ -101,7 +123,7 @@ def main(tier):
                         break
         cov = {
             "states": r.distinct + g.distinct, "transitions": r.generated + g.generated, "traces_validated_against_impl": len(recs), "behaviours_matching": n_ok,
-            "samples": samples or [{"note": "none"}], "mutants_refuted": refuted, "real_pes_runs": len(real), "descent_comparisons": n_desc, "worst_batch_vs_solo_energy_difference": worst_path,
+            "samples": samples or [{"note": "none"}], "mutants_refuted": refuted, "reused_optimiser_pairs": len(pairs), "reused_optimiser_pairs_matching": n_pairs_ok, "real_pes_runs": len(real), "descent_comparisons": n_desc, "worst_batch_vs_solo_energy_difference": worst_path,
             "ambiguous_cap_coincidences_excluded": len([x for x in recs if x["ambiguous"]]),
             "evaluations": len(recs) + len(real), "distinct_nontrivial": len([x for x in recs if x["it"] > 1]),
             "rule": "every behaviour (start displacements x tolerance x cap) exported by TLC; non-trivial = more than one evaluation", "exhaustive": True,
